@@ -662,6 +662,8 @@ func checkResponse(c caseSpec, rm *requestModel, res *pluginResult) ([]finding, 
 					switch got {
 					case "":
 						form = "not-a-literal"
+					case "/." + s.Name + "/" + m.Name:
+						form = "dot-prefixed-service-name"
 					case "/" + s.Name + "/" + m.Name:
 						form = "short-service-name"
 					case "/" + s.FullName + "/" + m.GoName:
@@ -801,4 +803,67 @@ func firstN(s []string, n int) []string {
 
 func parseOnly(name, src string) (*ast.File, error) {
 	return parser.ParseFile(fset, "emitted/"+name, src, 0)
+}
+
+// fileFacts: what must not depend on the order in which the files to generate are listed.
+func fileFacts(res *pluginResult) (map[string]string, bool) {
+	if res.Resp == nil || res.Resp.Error != nil {
+		return nil, false
+	}
+	out := map[string]string{}
+	for _, rf := range res.Resp.File {
+		a, err := parser.ParseFile(fset, "emitted/"+rf.GetName(), rf.GetContent(), parser.ImportsOnly)
+		if err != nil {
+			return nil, false
+		}
+		var imps []string
+		for _, im := range a.Imports {
+			n := ""
+			if im.Name != nil {
+				n = im.Name.Name + " "
+			}
+			imps = append(imps, n+im.Path.Value)
+		}
+		sort.Strings(imps)
+		out[rf.GetName()] = "package " + a.Name.Name + "; imports " + strings.Join(imps, ", ")
+	}
+	return out, true
+}
+
+// checkOrder: output names, package clauses and import sets are a function of
+// the descriptors and options, not of the order of file_to_generate.
+func checkOrder(c caseSpec, res, twin *pluginResult) []finding {
+	a, okA := fileFacts(res)
+	b, okB := fileFacts(twin)
+	if !okA || !okB {
+		if okA != okB {
+			return []finding{{"file-order", "opt=" + c.OptKey + "|one-order-fails", fmt.Sprintf("the request succeeds with one order of file_to_generate only (%s: ok=%v, dependency-first: ok=%v)", c.Order, okA, okB)}}
+		}
+		return nil // reported by the other clauses
+	}
+	var names []string
+	for n := range a {
+		names = append(names, n)
+	}
+	for n := range b {
+		if _, ok := a[n]; !ok {
+			names = append(names, n)
+		}
+	}
+	sort.Strings(names)
+	for _, n := range names {
+		fa, inA := a[n]
+		fb, inB := b[n]
+		switch {
+		case !inA || !inB:
+			return []finding{{"file-order", "opt=" + c.OptKey + "|output-names", fmt.Sprintf("output file %s is emitted with only one order of file_to_generate (%s: %v, dependency-first: %v)", n, c.Order, inA, inB)}}
+		case fa != fb:
+			what := "imports"
+			if strings.SplitN(fa, ";", 2)[0] != strings.SplitN(fb, ";", 2)[0] {
+				what = "package-clause"
+			}
+			return []finding{{"file-order", "opt=" + c.OptKey + "|" + what, fmt.Sprintf("%s differs with the order of file_to_generate: %s gives {%s}, dependency-first gives {%s}", n, c.Order, fa, fb)}}
+		}
+	}
+	return nil
 }
